@@ -72,3 +72,66 @@ def gen(rng, tier):
         n = rng.randint(0, 4)
         fs = [_Fn(_Snap(rng.choice(stamps), f"s{i}") if rng.random() < 0.6 else None) for i in range(n)]
         yield {"self": _Pipe(fs)}
+
+
+# ---- ErrorSnapshot.reproduce: the stored invocation, once more (C13: "reproduce() raises the same exception") -------------
+from pyvc.spec import CONC_IMPL  # noqa: E402
+from pyvc.types import TInt  # noqa: E402
+
+from .lazy import CountingFn  # noqa: E402
+
+PF = "pipefunc/_pipefunc.py"
+
+
+def _mk_snapshot(d):
+    from pipefunc._pipefunc import ErrorSnapshot
+    fn = d["function"] if isinstance(d["function"], CountingFn) else CountingFn(str(d["function"]))
+    fn.n = d["calls"]
+    return ErrorSnapshot(function=fn, exception=ValueError("boom"), args=d["args"] if isinstance(d["args"], tuple) else (d["args"],),
+                         kwargs=d["kwargs"] if isinstance(d["kwargs"], dict) else {"k": d["kwargs"]})
+
+
+ErrorSnapshotRV = TRec("ErrorSnapshot", {"function": TObj, "args": TObj, "kwargs": TObj, "calls": TInt}, to_py=_mk_snapshot,
+                       from_py=lambda o: {"function": o.function, "args": o.args, "kwargs": o.kwargs, "calls": o.function.n})
+
+
+def _apply(S, f, args, kwargs):
+    if S.symbolic:
+        return S.uf("spec:apply", TObj, f, args, kwargs)
+    return CONC_IMPL["spec:apply"](f, args, kwargs)
+
+
+snapshot_function = Contract(
+    f"{PF}::ErrorSnapshot.function", params={"self": ErrorSnapshotRV, "args": TObj, "kwargs": TObj}, returns=TObj, trusted=True,
+    pure=False, star_call=True, modifies=("self",),
+    ensures=lambda S, a, r, post: ({
+        "one more call of the stored function": post.self.calls == a.self.calls + 1,
+        "nothing else of the snapshot changes": S.and_(S.eq(post.self.function, a.self.function),
+                                                      S.eq(post.self.args, a.self.args), S.eq(post.self.kwargs, a.self.kwargs)),
+        "result": S.eq(r, _apply(S, a.self.function, a.args, a.kwargs)),
+    } if S.symbolic else {}),
+    note="the failing function as stored in the snapshot: deterministic in its arguments (spec:apply) - whatever it does "
+         "(return or raise) it does again; its only modelled effect is the ghost call counter",
+)
+
+reproduce = Contract(
+    f"{PF}::ErrorSnapshot.reproduce", params={"self": ErrorSnapshotRV}, returns=TObj, modifies=("self",), pure=False,
+    ensures=lambda S, a, r, post: {
+        "the stored function is invoked exactly once, with exactly the stored positional and keyword arguments, and what it "
+        "does is what reproduce does": S.and_(
+            (post.self.calls if S.symbolic else post.self.function.n) == (a.self.calls if S.symbolic else a.self.function.n) + 1,
+            lambda: S.eq(r, _apply(S, a.self.function, a.self.args, a.self.kwargs))),
+        "the snapshot is unchanged": S.and_(S.eq(post.self.args, a.self.args), S.eq(post.self.kwargs, a.self.kwargs)),
+    },
+)
+REPRODUCE = [snapshot_function, reproduce]
+
+
+def repro_gen(rng, tier):
+    from pipefunc._pipefunc import ErrorSnapshot
+    for q in range(200 if tier == "quick" else 2000):
+        fn = CountingFn(f"f{q}")
+        fn.n = rng.randint(0, 2)
+        args = tuple(rng.choice([1, "a", (2, 3)]) for _ in range(rng.randint(0, 2)))
+        kwargs = {k: rng.choice([0, "v", [1]]) for k in ("x", "y") if rng.random() < 0.6}
+        yield {"self": ErrorSnapshot(function=fn, exception=ValueError("boom"), args=args, kwargs=kwargs)}
